@@ -26,8 +26,8 @@ CHECKS = {
           "Every query of the stated scopes is answered by the real subtype (3 modes), subtype_check_all, equal and, through printed .did text with order/renaming variants, service_compatible / report / service_equal, and compared with the greatest fixed point computed over the reachable pair graph; histories of successful queries sharing one Gamma are explored breadth-first with the answer and the invariant 'memo is a subset of the relation' checked on every transition.",
           "Trusted: R3 (gfp over reachable pairs) as a reading of the spec's rules. Transitivity is demanded on the null-free fragment only, because the spec's own relation is not transitive through null-typed record fields.",
           "DESIGN.md section 5 C05; Appendix A.1, C.2"),
- "C06": E("bounded-exhaustive enumeration of byte strings, 1-byte deviations and parameter-swept hostile families x 20 targets x 8-10 decoder configurations x 3 stack classes x 2 build profiles, each call in a single-threaded worker process under a counting allocator",
-          "All byte strings DIDL+s up to the stated lengths, every 1-byte deviation of valid messages, and every member of the hostile families (huge/over-long counts at every count position, zero-sized element bombs, recursive tables, nesting 1..20000) are decoded at native and untyped targets under every configuration: each call returns Ok or Err; a panic, a dead worker, 20 s without progress or an allocation above 4 MiB + 64*|input| + 64*quota is a violation; checked and release builds must agree.",
+ "C06": E("bounded-exhaustive enumeration of byte strings, 1-byte deviations and parameter-swept hostile families x 24 targets x 8-10 decoder configurations x 3 stack classes x 2 build profiles, each call in a single-threaded worker process under a counting allocator",
+          "All byte strings DIDL+s up to the stated lengths, every 1-byte deviation of valid messages, and every member of the hostile families (huge/over-long counts at every count position, zero-sized element bombs, recursive tables, nesting 1..20000 of opt / vec / record / variant chains, counts whose byte size lies within 32 bytes of 2^63 / 2^64, future-typed values) are decoded at native and untyped targets under every configuration: each call returns Ok or Err; a panic, a dead worker, 20 s of the worker's CPU time without progress or an allocation above 4 MiB + 64*|input| + 64*quota is a violation; checked and release builds must agree.",
           "Trusted: the counting allocator and the process supervisor. 'Work proportional to the quota' is decided through allocation and termination, not timing; unmetered runs only on messages denoting <= 10^6 value nodes.",
           "DESIGN.md section 5 C06"),
  "C07": E("budget sweep: for every message of the scope the decoding cost is measured and then every quota value 0..=cost+2 (each a distinct abort point) is replayed on the real decoder; cost compared with a reference cost model",
